@@ -41,6 +41,7 @@ class Ctx:
         self.tokens = {}  # g2o number tokens
         self.keep = []  # keep z3 terms alive so that get_id() keys stay unique
         self.shadow = None  # valuation (name -> float) when running in validation ("shadow") mode
+        self.fp_mode = False  # IEEE binary64 kernels (symrun/fp.py): np.pi is the double, not the real number
 
     def fresh(self, prefix):
         self.n += 1
